@@ -37,7 +37,8 @@ Refused (`Unsupported`: the fn is stubbed / the item is not emitted; undecided, 
       - `PATH.name.clone()`;
       - a declaration or field initialiser `name: ..` / struct-literal shorthand `name,`;
       - the bare identifier moved as a whole argument or field value (`f(a, name)`, `S { name }`, `S { g: name }`),
-        R28b included.
+        R28b included;
+      - `let name = ..;` introducing a local of the same name (its uses are checked by the same rule).
     E.g. `*self.error`, `&self.error`, `let f = self.error;`, comparing or transmuting the pointer: refused, so a
     new way of using the pointer cannot pass unnoticed through a model that only knows `call0` and `clone`.
 """
@@ -193,6 +194,8 @@ def apply_fnptr(rw, unsupported):
                 continue
             if prev != "." and re.match(r"\s*:(?!:)", after):
                 continue  # declaration / field initialiser
+            if re.search(r"(?<![A-Za-z0-9_])let\s+(?:mut\s+)?$", m[:a]) and re.match(r"\s*(?::[^=;]+)?=(?!=)", after):
+                continue  # `let name = ..;`: a local of the same name - every use of it falls under the same rule
             am = re.match(r"\s*([,})])", after)
             if (prev in ("{", ",", "(") or (prev == ":" and not before.endswith("::"))) and am:
                 if am.group(1) == ")" and re.match(r"\s*\)\s*\(", after):
